@@ -168,7 +168,7 @@ def tpSpringForce (sqrt : K → K) (k x0 : K) (X1 X2 : Pose K) (s1 s2 : V3 K) : 
   let d := sqrt (normSq r_G)
   let stretch := d - x0
   let frcScalar := k * stretch
-  let f1_G := smul (frcScalar / d) r_G
+  let f1_G := smul (frcScalar) r_G
   (⟨cross s1_G f1_G, f1_G⟩, ⟨-(cross s2_G f1_G), -f1_G⟩)
 
 /-- `Force::TwoPointLinearSpringImpl::calcPotentialEnergy` -/
